@@ -30,7 +30,8 @@ vars == <<phase, rq, ntok, file, opens, resp, nreq, memo, h, mstate>>
 NoResp == Resp(0, <<>>, NoCR, -1)
 Case(path, fb, head, range, ims, zone, clock) ==
     [path |-> path, fb |-> fb, head |-> head, range |-> range, ims |-> ims, zone |-> zone, clock |-> clock]
-NoRange == [k |-> "none", a |-> 0, b |-> 0]
+RangeRec(k, a, ha, b, hb) == [k |-> k, a |-> a, b |-> b, ha |-> ha, hb |-> hb]
+NoRange == RangeRec("none", 0, 0, 0, 0)
 
 Init == /\ phase = "build" /\ ntok = 0 /\ file = FAIL /\ opens = <<>> /\ resp = NoResp
         /\ nreq = 1 /\ memo = {} /\ h = <<>> /\ mstate \in MStates
@@ -89,6 +90,9 @@ RangeUnsat   == /\ phase = "range" /\ RangeResult.status = 416
                 /\ Finish(RangeResult) /\ UNCHANGED <<nreq, memo, h, mstate, rq, ntok, file, opens>>
 RangeBad     == /\ phase = "range" /\ RangeResult.status = 400
                 /\ Finish(RangeResult) /\ UNCHANGED <<nreq, memo, h, mstate, rq, ntok, file, opens>>
+(* wrong design only (BigPositions = FALSE): the position was handed to seek() first and that failed *)
+RangeSeekFails == /\ phase = "range" /\ RangeResult.status = 404
+                /\ Finish(RangeResult) /\ UNCHANGED <<nreq, memo, h, mstate, rq, ntok, file, opens>>
 
 (* between two requests on the same route object the file system may change *)
 Again(m) == /\ phase = "done" /\ nreq < MaxReq
@@ -104,7 +108,7 @@ RemoveFile  == mstate # 0 /\ Again(0)
 ReplaceFile == mstate # 0 /\ Again(3 - mstate)
 
 Next == NextRequest \/ CreateFile \/ RemoveFile \/ ReplaceFile \/ Extend \/ Submit \/ NoMatch \/ SanitiseReject \/ SanitiseAccept \/ OpenRequested \/ OpenFallback
-        \/ OpenMiss \/ BadDate \/ NotModified304 \/ Modified \/ RangeFull \/ RangePartial \/ RangeUnsat \/ RangeBad
+        \/ OpenMiss \/ BadDate \/ NotModified304 \/ Modified \/ RangeFull \/ RangePartial \/ RangeUnsat \/ RangeBad \/ RangeSeekFails
 Spec == Init /\ [][Next]_vars
 
 (* ---- invariants ---- *)
@@ -133,4 +137,41 @@ NotModifiedNoBody == (Done /\ resp.status = 304) => (resp.body = <<>> /\ rq.ims.
 DecisionIndependentOfZone == Done => \A z \in AllZones : Expected([rq EXCEPT !.zone = z]) = Expected(rq)
 (* neither may it depend on where the server's clock stands relative to the dates involved *)
 DecisionIndependentOfClock == Done => \A k \in AllClocks : Expected([rq EXCEPT !.clock = k]) = Expected(rq)
+
+(* ---- positions of any magnitude ----
+   The magnitude class of a position relative to a size n: below the size (each value its own class), equal to
+   it, size + 1, further beyond, Huge.  The whole outcome depends only on the classes of the positions and on
+   their order: whatever is decided for one Huge number is decided for all of them. *)
+Mag(p, n) == IF IsHuge(p) THEN n + 3 ELSE Min(p[1], n + 2)
+Ord(p, q) == IF PosLt(p, q) THEN -1 ELSE IF PosLt(q, p) THEN 1 ELSE 0
+Positions(n) == {<<v, 0>> : v \in 0..(n + 4)} \cup {<<0, 1>>, <<0, 2>>}
+SameMagnitudes(r, r2, n) == /\ r2.k = r.k
+                            /\ Mag(PosA(r2), n) = Mag(PosA(r), n) /\ Mag(PosB(r2), n) = Mag(PosB(r), n)
+                            /\ Ord(PosA(r2), PosB(r2)) = Ord(PosA(r), PosB(r))
+Ranged == Served /\ rq.range.k \in {"fl", "f", "s"}
+DecisionDependsOnlyOnMagnitudeClass ==
+    Ranged => LET n == Len(Content(file)) IN
+              \A p \in Positions(n), q \in (IF rq.range.k = "fl" THEN Positions(n) ELSE {<<0, 0>>}) :
+                  LET r2 == RangeRec(rq.range.k, p[1], p[2], q[1], q[2]) IN
+                  SameMagnitudes(rq.range, r2, n) => Expected([rq EXCEPT !.range = r2]) = Expected(rq)
+(* and Huge is decided by the same arithmetic as the nearest numbers beyond the size: writing size + rank for a
+   Huge position (the small positions of the request being at most the size) changes nothing *)
+JustBeyond(p, n) == IF IsHuge(p) THEN <<n + p[2], 0>> ELSE p
+HugeDecidedAsJustBeyond ==
+    (Ranged /\ rq.range.a <= Len(Content(file)) /\ rq.range.b <= Len(Content(file))) =>
+        LET n == Len(Content(file))
+            p == JustBeyond(PosA(rq.range), n)
+            q == JustBeyond(PosB(rq.range), n)
+        IN  Expected([rq EXCEPT !.range = RangeRec(rq.range.k, p[1], p[2], q[1], q[2])]) = Expected(rq)
+(* a position beyond the size never produces anything but 206 / 416 / 200 (empty file) / 400 (last < first): in
+   particular never "not found" and never a server error *)
+HugeNeverFails == (Ranged /\ (rq.range.ha > 0 \/ rq.range.hb > 0)) => resp.status \in {200, 206, 304, 400, 416}
+HugeFirstUnsatisfiable == (Ranged /\ rq.range.k \in {"fl", "f"} /\ rq.range.ha > 0 /\ resp.status \notin {304, 400}
+                           /\ Len(Content(file)) > 0) => (resp.status = 416 /\ resp.cr = Star(Len(Content(file))))
+HugeLastClamped == (Ranged /\ rq.range.k = "fl" /\ rq.range.ha = 0 /\ rq.range.hb > 0 /\ resp.status # 304
+                    /\ rq.range.a < Len(Content(file))) =>
+                       (resp.status = 206 /\ resp.cr = <<rq.range.a, Len(Content(file)) - 1, Len(Content(file))>>)
+HugeSuffixWhole == (Ranged /\ rq.range.k = "s" /\ rq.range.ha > 0 /\ resp.status # 304 /\ Len(Content(file)) > 0) =>
+                       (resp.status = 206 /\ resp.body = Content(file)
+                        /\ resp.cr = <<0, Len(Content(file)) - 1, Len(Content(file))>>)
 =============================================================================
